@@ -11,6 +11,7 @@
 #include "base64.h"
 #include "getval.h"
 #include <pthread.h>
+#include <stdint.h>
 #include <stdio.h>
 #include <stdlib.h>
 #include <string.h>
@@ -297,6 +298,9 @@ static std::string op_enc(const std::vector<std::string> &a)
   int cm = atoi(a[1].c_str()), hm = atoi(a[2].c_str()), T = atoi(a[3].c_str());
   bytes key = unhex(a[4]), seed = unhex(a[5]), plain = unhex(a[6]);
   bool nobuf = a.size() > 7 && a[7] == "nobuf";
+  size_t announced = plain.size();      // trailing "fsize=N": the size the caller ANNOUNCES (documented as progress information only)
+  if (a.back().compare(0, 6, "fsize=") == 0)
+    announced = strtoull(a.back().c_str() + 6, NULL, 10);
   seed.push_back(0);
   std::string inpath = write_tmp(plain);
   FILE *fin = fopen(inpath.c_str(), "rb");
@@ -307,7 +311,7 @@ static std::string op_enc(const std::vector<std::string> &a)
     Settings st(cm, hm, true);
     key.resize(16);
     runcrypt rc(fin, fo, persistent_arg(key, key[0] & 7), st, (u8_t)T);
-    r = rc.execute_encrypt(plain.size(), persistent_arg(seed, 0));
+    r = rc.execute_encrypt(announced, persistent_arg(seed, 0));
   }
   bytes after = read_file(inpath);
   unlink(inpath.c_str());
@@ -361,7 +365,41 @@ static std::string op_decver(const std::vector<std::string> &a, bool dec)
   int T = atoi(a[1].c_str());
   bytes key = unhex(a[2]), file = unhex(a[3]);
   std::string inpath = write_tmp(file);
-  FILE *fin = fopen(inpath.c_str(), "rb");
+  size_t announced = file.size();       // trailing "fsize=N": a stale size (the file grew after it was measured)
+  bool through_pipe = false;            // trailing "pipe": the input arrives through a pipe (not seekable)
+  for (size_t q = 4; q < a.size(); ++q)
+  {
+    if (a[q].compare(0, 6, "fsize=") == 0)
+      announced = strtoull(a[q].c_str() + 6, NULL, 10);
+    if (a[q] == "pipe")
+      through_pipe = true;
+  }
+  FILE *fin;
+  pid_t feeder = -1;
+  if (through_pipe)
+  {
+    int pfd[2];
+    if (pipe(pfd) != 0)
+      return "PIPE-FAILED";
+    feeder = fork();
+    if (feeder == 0)
+    {
+      close(pfd[0]);
+      size_t off = 0;
+      while (off < file.size())
+      {
+        ssize_t w = write(pfd[1], file.data() + off, file.size() - off);
+        if (w <= 0)
+          break;
+        off += w;
+      }
+      _exit(0);
+    }
+    close(pfd[1]);
+    fin = fdopen(pfd[0], "rb");
+  }
+  else
+    fin = fopen(inpath.c_str(), "rb");
   memfile out;
   FILE *fo = open_mem(&out, "w+", false);
   bool r;
@@ -372,8 +410,14 @@ static std::string op_decver(const std::vector<std::string> &a, bool dec)
     u8_t *kp = persistent_arg(key, key[0] & 7);
     wv_alloc_arm(true);
     runcrypt rc(fin, fo, kp, st, (u8_t)T);
-    r = dec ? rc.execute_decrypt(file.size()) : rc.execute_verify(file.size());
+    r = dec ? rc.execute_decrypt(announced) : rc.execute_verify(announced);
     wv_alloc_arm(false);
+  }
+  if (feeder > 0)
+  {
+    kill(feeder, SIGKILL);
+    int st;
+    waitpid(feeder, &st, 0);
   }
   int code = result_code(cap_end());
   bytes after = read_file(inpath);
@@ -719,6 +763,39 @@ static std::string handle(std::vector<std::string> &a)
       for (auto p : v)
         delete[] p;
     };
+    if (a.size() > 4 && a[4] == "use-copy")
+    {
+      // the COPY is used after the original went out of scope and its storage was reused for an object with ANOTHER key
+      unsigned char other[16];
+      for (int i = 0; i < 16; ++i)
+        other[i] = (unsigned char)(k[i] ^ 0x5A ^ i);
+      std::string r;
+      if (a[1] == "e")
+      {
+        alignas(16) unsigned char slot[sizeof(encryaes)];
+        encryaes *orig = new (slot) encryaes(k.data());
+        encryaes copy = *orig;
+        orig->~encryaes();
+        encryaes *second = new (slot) encryaes(other);
+        second->runaes_128bit(scratch);
+        copy.runaes_128bit(bb);
+        r = hex(bb, 16);
+      }
+      else
+      {
+        alignas(16) unsigned char slot[sizeof(decryaes)];
+        decryaes *orig = new (slot) decryaes(k.data());
+        decryaes copy = *orig;
+        orig->~decryaes();
+        decryaes *second = new (slot) decryaes(other);
+        second->runaes_128bit(scratch);
+        copy.runaes_128bit(bb);
+        r = hex(bb, 16);
+      }
+      fprintf(res, "%s %s\n", "__aescopy", r.c_str());
+      fflush(res);
+      _exit(0);
+    }
     if (a[1] == "e")
     {
       encryaes e(k.data());
@@ -744,6 +821,27 @@ static std::string handle(std::vector<std::string> &a)
     fprintf(res, "%s %s\n", "__aescopy", r.c_str());
     fflush(res);
     _exit(0);
+  }
+  if (c == "modeu")
+  {
+    // like mode, but the stream lies at an address that is NOT a multiple of 4 (offset 1..3 of an aligned buffer, chosen from the data)
+    bytes k = unhex(a[3]), iv = unhex(a[4]), data = unhex(a[5]);
+    k.resize(16);
+    iv.resize(20);
+    size_t off = 1 + (iv[0] % 3);
+    std::vector<unsigned char> store(data.size() + 32);
+    unsigned char *base = store.data();
+    base += (16 - ((uintptr_t)base & 15)) & 15;
+    memcpy(base + off, data.data(), data.size());
+    AesFactory f(k.data());
+    f.loadiv(iv.data());
+    Aesmode *m = f.createCryMaster(a[1] == "e", (u8_t)atoi(a[2].c_str()));
+    if (m == NULL)
+      return "NULL";
+    for (size_t i = 0; i + 16 <= data.size(); i += 16)
+      m->runcry(base + off + i);
+    delete m;
+    return hex(base + off, data.size());
   }
   if (c == "mode" || c == "modes")
   {
@@ -873,6 +971,42 @@ static std::string handle(std::vector<std::string> &a)
     delete h;
     fclose(fp);
     unlink(p.c_str());
+    return r;
+  }
+  if (c == "hpipe")
+  {
+    // hpipe ALG MSG : the file entry point reading from a PIPE (not seekable; short reads are possible)
+    bytes m = unhex(a[2]);
+    Hashmaster *h = hasher(atoi(a[1].c_str()));
+    int pfd[2];
+    if (pipe(pfd) != 0)
+      return "PIPE-FAILED";
+    pid_t feeder = fork();
+    if (feeder == 0)
+    {
+      close(pfd[0]);
+      size_t off = 0;
+      while (off < m.size())
+      {
+        size_t chunk = m.size() - off > 37 ? 37 : m.size() - off;      // odd-sized writes: the reader sees short reads
+        ssize_t w = write(pfd[1], m.data() + off, chunk);
+        if (w <= 0)
+          break;
+        off += w;
+      }
+      _exit(0);
+    }
+    close(pfd[1]);
+    FILE *fp = fdopen(pfd[0], "rb");
+    buffer64 *buf = new filebuffer64(fp);
+    unsigned char out[64];
+    h->getFileHash(buf, out);
+    std::string r = hex(out, h->gethlen());
+    delete (filebuffer64 *)buf;
+    delete h;
+    fclose(fp);
+    int st;
+    waitpid(feeder, &st, 0);
     return r;
   }
   if (c == "hfilep")
